@@ -299,3 +299,41 @@ mut('c06-background-dispatch-task', 'C06', ['C06.3'], S,
 mut('c06-always-parallel', 'C06', ['C06.4', 'C06.3'], S,
     "        if self.parallel_handlers:\n            handler_tasks", "        if self.parallel_handlers or len(applicable_handlers) > 3:\n            handler_tasks",
     'concurrent handlers without parallel_handlers')
+
+# ================================================================================================ C07
+mut('c07-no-path-guard', 'C07', ['C07.1'], S,
+    "        if self.name not in event.event_path:\n", "        if True:\n",
+    'bus name appended on every dispatch')
+mut('c07-path-written-elsewhere', 'C07', ['C07.1'], S,
+    "        # Mark event as complete if all handlers are done\n        event.event_mark_complete_if_all_handlers_completed()\n",
+    "        # Mark event as complete if all handlers are done\n        event.event_path.append(self.name)\n        event.event_mark_complete_if_all_handlers_completed()\n",
+    'process_event appends to the path too')
+mut('c07-path-not-recorded', 'C07', ['C07.1'], S,
+    "        if self.name not in event.event_path:\n", "        if self.name not in event.event_path and event.event_parent_id is None:\n",
+    'child events are enqueued without the bus in their path')
+mut('c07-check-order', 'C07', ['C07.2'], S,
+    "            if target_bus.name in event.event_path:\n", "            if target_bus.name in event.event_path and event.event_parent_id is not None:\n",
+    'root events are forwarded back into buses already in the path')
+mut('c07-compare-bus-id', 'C07', ['C07.2'], S,
+    "            if target_bus.name in event.event_path:\n", "            if target_bus.id in event.event_path:\n",
+    'path membership tested by bus id (never matches)')
+mut('c07-pred-disagree', 'C07', ['C07.3'], S,
+    "            inspect.ismethod(handler) and isinstance(handler.__self__, EventBus) and handler.__name__ == 'dispatch'\n",
+    "            inspect.ismethod(handler) and isinstance(handler.__self__, EventBus)\n",
+    'third-check predicate treats every bus method as forwarding')
+mut('c07-alias', 'C07', ['C07.3'], S,
+    "    @overload\n    async def expect(\n        self,\n        event_type: type[T_ExpectedEvent],",
+    "    emit = dispatch\n\n    @overload\n    async def expect(\n        self,\n        event_type: type[T_ExpectedEvent],",
+    'emit = dispatch alias')
+mut('c07-return-copy', 'C07', ['C07.4'], S,
+    "            self.cleanup_event_history()\n\n        return event\n", "            self.cleanup_event_history()\n\n        return event.model_copy()\n",
+    'dispatch returns a copy')
+mut('c07-enqueue-copy', 'C07', ['C07.4'], S,
+    "                self.event_queue.put_nowait(event)\n", "                self.event_queue.put_nowait(event.model_copy(deep=False))\n",
+    'a copy is queued')
+mut('c07-no-rename', 'C07', ['C07.5'], S,
+    "            self.name = f'{original_name}_{unique_suffix}'\n", "            pass\n",
+    'name conflicts no longer resolved')
+mut('c07-update-keyed-without-bus', 'C07', ['C07.5'], M,
+    "        handler_id: PythonIdStr = get_handler_id(handler, eventbus)\n", "        handler_id: PythonIdStr = get_handler_id(handler)\n",
+    'result records keyed without the bus')
